@@ -152,8 +152,10 @@ class WinObservation:
     def fresh(self):
         d = self.d
         d.select()                      # drops every retained criterion (also one that made an earlier call raise)
+        # onto window 0 FROM another window: the state the constructor leaves (a change of window restarts the time
+        # and frequency axes); what later calls -- the bare select() among them -- make of it is for the histories
+        d.select(spw=self.nspw() - 1, subarray=0)
         d.select(spw=0, subarray=0)
-        d.select()
         d.select(weights='all', flags='all')
         d._selection = {'spw': 0, 'subarray': 0}      # as after the constructor of the model
         self.weight_ids.clear()
@@ -359,7 +361,7 @@ def run_impl_w(fx, rng, nops, script=None):
     kinds = [k for k in c01.KINDS if k != 'raw_flags']
     ops = [[3]]
     log = []
-    _observe(fx, log, 'observe (as opened, window 0)')
+    _observe(fx, log, 'observe (as opened: window 0)')
     atoms = {0: 'all'}
     if log[0]['obs'] is None:
         return ops, log, atoms
@@ -496,7 +498,10 @@ def compare_history_w(ctx, fx, ops, log, mouts, hid, note=True):
     def case(n):
         return dict(hid=hid, fail_at=n, spec=fx.spec, ops=descs[:n + 1])
 
+    seen = len(ctx.disagreements)
     for n, e in enumerate(log):
+        if len(ctx.disagreements) > seen:
+            return          # everything later in this history follows from the first disagreement
         if n >= len(mouts):
             ctx.disagree(pre + ';what=model_history_short', case(n), len(log), len(mouts),
                          'the model ended the history earlier than the implementation', kind='tie')
@@ -561,6 +566,7 @@ def compare_history_w(ctx, fx, ops, log, mouts, hid, note=True):
                              dict(spw=s_spw, dumps=p_dumps),
                              'selected dumps %r were recorded with another centre frequency than that of the active '
                              'spectral window: freqs / channels do not describe them' % foreign[:8], spec=p_dumps)
+                return          # shape, timestamps, sensors, reads ... of this selection follow from it
             elif ob['dumps'] and ob['channels'] and all(0 <= c < fx.F for c in ob['channels']):
                 bad = [i for i in ob['dumps']
                        if not np.array_equal(ob['freqs'], fx.doc_axis[fx.dump_spw[i]][np.array(ob['channels'], dtype=int)])]
